@@ -1894,3 +1894,99 @@ mod tests {
         }
     }
 }
+
+/// Verification hooks: access to this file's private items for the conformance harness.
+#[cfg(eigerco_lumina_verif)]
+pub(crate) mod verif_hooks {
+    use super::*;
+
+    pub(crate) async fn decode_and_verify(
+        request: &HeaderRequest,
+        responses: &[HeaderResponse],
+    ) -> Result<Vec<ExtendedHeader>, HeaderExError> {
+        decode_and_verify_responses(request, responses).await
+    }
+
+    pub(crate) const MAX_TRIES_: usize = MAX_TRIES;
+    pub(crate) const MAX_PEERS_: usize = MAX_PEERS;
+
+    fn kind_code(kind: PeerKind) -> u8 {
+        match kind {
+            PeerKind::Any => 0,
+            PeerKind::Archival => 1,
+            PeerKind::Trusted => 2,
+            PeerKind::TrustedArchival => 3,
+        }
+    }
+
+    /// Plain-data projection of the handler's private state.
+    #[derive(Debug, Clone, Default, PartialEq, Eq)]
+    pub struct ClientSnapshot {
+        /// Requests in flight: (request id, peer kind code, tries left, is head request, caller gone).
+        pub in_flight: Vec<(u64, u8, usize, bool, bool)>,
+        /// Callers waiting for the network head.
+        pub head_waiters: usize,
+        /// A head round is in progress.
+        pub head_scheduled: bool,
+        /// Pending (not sent) requests: (peer kind code of the queue, peer kind code of the
+        /// state, tries left, origin or 0 for hash requests, caller gone).
+        pub pending: Vec<(u8, u8, usize, u64, bool)>,
+        /// The handler was stopped.
+        pub cancelled: bool,
+        /// The schedule-pending interval is armed.
+        pub interval_armed: bool,
+    }
+
+    pub(crate) fn snapshot<S>(h: &HeaderExClientHandler<S>, id_of: impl Fn(&S::RequestId) -> u64) -> ClientSnapshot
+    where
+        S: RequestSender,
+    {
+        let mut in_flight: Vec<_> = h
+            .reqs
+            .iter()
+            .map(|(id, st)| {
+                (
+                    id_of(id),
+                    kind_code(st.peer_kind),
+                    st.tries_left,
+                    st.request.is_head_request(),
+                    st.respond_to.is_closed(),
+                )
+            })
+            .collect();
+        in_flight.sort();
+
+        let mut pending = Vec::new();
+        for kind in [
+            PeerKind::Any,
+            PeerKind::Archival,
+            PeerKind::Trusted,
+            PeerKind::TrustedArchival,
+        ] {
+            if let Some(q) = h.pending_reqs.get(&kind) {
+                for st in q {
+                    let origin = match st.request.data {
+                        Some(Data::Origin(o)) => o,
+                        _ => 0,
+                    };
+                    pending.push((
+                        kind_code(kind),
+                        kind_code(st.peer_kind),
+                        st.tries_left,
+                        origin,
+                        st.respond_to.is_closed(),
+                    ));
+                }
+            }
+        }
+
+        ClientSnapshot {
+            in_flight,
+            head_waiters: h.head_reqs.len(),
+            head_scheduled: h.head_req_scheduled,
+            pending,
+            cancelled: h.cancellation_token.is_cancelled(),
+            interval_armed: h.schedule_pending_interval.is_some(),
+        }
+    }
+}
